@@ -126,6 +126,14 @@ class SSETransport(Transport):
             # Wait for SSE connection to establish
             try:
                 await asyncio.wait_for(self._connected.wait(), timeout=self.timeout)
+                if not self._message_url:
+                    # The connection handler also sets the event when it fails
+                    # (error status, connect error, stream closed before the
+                    # endpoint was announced): never hand out a dead transport.
+                    raise RuntimeError(
+                        f"SSE connection to {self.base_url} failed: "
+                        "no message endpoint was announced"
+                    )
                 logger.info(f"SSE connection established to {self.base_url}")
                 return self
 
